@@ -128,14 +128,14 @@ type liveWorld struct {
 	w       *world
 	fs      filesys.FileSystem
 	kind    string // mem | disk
-	ref     refFS
+	ref     c05RefFS
 	aborted bool // a build diverged: stop using this process for builds
 }
 
 func materialise(w *world, kind, diskBase string) (*liveWorld, error) {
 	lw := &liveWorld{w: w, kind: kind}
 	full := w.full()
-	lw.ref = refFS{root: full, physical: kind == "disk"}
+	lw.ref = c05RefFS{root: full, physical: kind == "disk"}
 	if kind == "mem" {
 		fs, err := full.toMem()
 		if err != nil {
